@@ -2,6 +2,7 @@ package system
 
 import (
 	"context"
+	"database/sql"
 	"errors"
 	"fmt"
 	"sync"
@@ -30,7 +31,7 @@ func (c *controllerFacade) handleState(ctx context.Context, dryRun bool, fn func
 		return fn(c.Controller)
 	}
 
-	ctrl, tx, err := c.BeginTX(ctx, nil)
+	ctrl, tx, err := c.Controller.BeginTX(ctx, nil)
 	if err != nil {
 		return err
 	}
@@ -109,6 +110,25 @@ func (c *controllerFacade) handleState(ctx context.Context, dryRun bool, fn func
 	}
 
 	return nil
+}
+
+// BeginTX keeps the state tracking on the transactional controller: writes made
+// through it (atomic bulk) on a ledger that is still initializing must also take
+// the ledger lock, move the ledger to in-use and resynchronise the id sequences.
+func (c *controllerFacade) BeginTX(ctx context.Context, options *sql.TxOptions) (ledgercontroller.Controller, *bun.Tx, error) {
+	ctrl, tx, err := c.Controller.BeginTX(ctx, options)
+	if err != nil {
+		return nil, nil, err
+	}
+
+	c.mu.RLock()
+	l := c.ledger
+	c.mu.RUnlock()
+
+	return &controllerFacade{
+		Controller: ctrl,
+		ledger:     l,
+	}, tx, nil
 }
 
 func (c *controllerFacade) CreateTransaction(ctx context.Context, parameters ledgercontroller.Parameters[ledgercontroller.CreateTransaction]) (*ledger.Log, *ledger.CreatedTransaction, bool, error) {
